@@ -233,13 +233,14 @@ func buildUniqueAttrs(args ...any) (kvps Attrs) {
 
 func argsToAttrs(kvps *Attrs, args ...any) { //nolint:revive
 	var key string
+	var haveKey bool // a key is pending; the empty string is a key like any other
 	// if keysKnown == nil {
 	// keysKnown = make(map[string]bool)
 	for _, it := range args {
-		if key == "" {
+		if !haveKey {
 			switch k := it.(type) {
 			case string:
-				key = k
+				key, haveKey = k, true
 			case Attr:
 				*kvps = append(*kvps, k)
 				key = ""
@@ -259,7 +260,7 @@ func argsToAttrs(kvps *Attrs, args ...any) { //nolint:revive
 			}
 		} else {
 			*kvps = append(*kvps, NewAttr(key, it))
-			key = ""
+			key, haveKey = "", false
 		}
 	}
 	return
